@@ -790,8 +790,10 @@ theorem Rnd_self (b : Nat) (hb : b < 18446744073709551616) (h : FinB b) : Rnd (b
       rw [roundPack_pos _ _ _ _ h0, roundMag_exact _ _ (by omega) (mantB_lt b) (expB_ge b) (mantB_norm b),
         withSign64]
       unfold pk
-      rw [if_neg (by omega)]
-      omega
+      have hlt : ¬ (4503599627370496 * (expB b + 1074).toNat + mantB b ≥ 9218868437227405312) := by
+        rw [← hm1]; omega
+      rw [if_neg hlt, ← hm1]
+      exact hsg.symm
     rw [e] at this
     exact this
 
